@@ -162,6 +162,7 @@ func (p *prop) Finish(s *core.Session) {
 // ---------------------------------------------------------------- case syntax
 
 type step struct {
+	text string
 	op   byte
 	keys []int
 	p    bool
@@ -291,14 +292,47 @@ func parseSched(f []string) (K int, steps []step, ok bool) {
 	if len(parts) > 200 {
 		return 0, nil, false
 	}
+	ticks := 0
 	for _, s := range parts {
 		st, ok := parseStep(s, K)
 		if !ok {
 			return 0, nil, false
 		}
+		st.text = s
+		ticks += st.n
 		steps = append(steps, st)
 	}
-	return K, steps, true
+	return K, steps, ticks <= 99
+}
+
+// splitFields splits a protocol line the way the Lean driver does (single spaces, empty fields dropped).
+func splitFields(line string) []string {
+	var out []string
+	for _, f := range strings.Split(line, " ") {
+		if f != "" {
+			out = append(out, f)
+		}
+	}
+	return out
+}
+
+// stepSource yields the next step of a schedule: a parsed line (replay) or the generator,
+// which looks at the running case to choose a step that is possible now.
+type stepSource interface {
+	next(k *kase) (step, bool)
+}
+
+type replaySource struct {
+	steps []step
+	i     int
+}
+
+func (r *replaySource) next(*kase) (step, bool) {
+	if r.i >= len(r.steps) {
+		return step{}, false
+	}
+	r.i++
+	return r.steps[r.i-1], true
 }
 
 // ---------------------------------------------------------------- one running case
@@ -348,7 +382,6 @@ type shadowFail struct {
 
 type kase struct {
 	p        *prop
-	line     string
 	dir      string
 	K        int
 	U        time.Duration
@@ -376,6 +409,7 @@ type kase struct {
 	failures []core.Failure
 	tags     map[string]bool
 	badSeen  bool // a B step happened (narrows the known-finding class)
+	done     []step // steps executed so far
 	infra    string
 }
 
@@ -735,14 +769,14 @@ func (k *kase) fail(class, what string) {
 			return
 		}
 	}
-	k.failures = append(k.failures, core.Failure{Case: k.line, Class: class, What: what})
+	k.failures = append(k.failures, core.Failure{Class: class, What: what})
 }
 
 func (k *kase) tag(t string) { k.tags[t] = true }
 
 // runSched executes the schedule; ok=false means the line is (semantically) malformed.
-func (p *prop) runSched(line string, K int, steps []step, U time.Duration) (impl string, k *kase, ok bool) {
-	k = &kase{p: p, line: line, K: K, U: U, ev: make(chan reqEvent, 64),
+func (p *prop) runSched(K int, src stepSource, U time.Duration) (impl string, k *kase, ok bool) {
+	k = &kase{p: p, K: K, U: U, ev: make(chan reqEvent, 64),
 		objIdx: map[*reverseproxy.Host]int{}, tags: map[string]bool{}}
 	k.cond = sync.NewCond(&k.mu)
 	k.dir = filepath.Join(p.root, fmt.Sprintf("k%d", p.nextDir.Add(1)))
@@ -761,7 +795,12 @@ func (p *prop) runSched(line string, K int, steps []step, U time.Duration) (impl
 	var out []string
 	ok = true
 	k.anchor = time.Now()
-	for _, st := range steps {
+	for {
+		st, more := src.next(k)
+		if !more {
+			break
+		}
+		k.done = append(k.done, st)
 		var ev string
 		var moved *cfgGen
 		switch st.op {
@@ -906,7 +945,10 @@ func (p *prop) Run(line string) core.Outcome {
 }
 
 func (p *prop) run(line string) core.Outcome {
-	f := strings.Split(line, " ")
+	f := splitFields(line)
+	if len(f) == 0 {
+		return core.Outcome{Impl: "bad-op", Tags: []string{"bad-op", "trivial"}}
+	}
 	switch f[0] {
 	case "sched":
 		K, steps, ok := parseSched(f)
@@ -916,40 +958,62 @@ func (p *prop) run(line string) core.Outcome {
 		if err := p.init(); err != nil {
 			return core.Outcome{Impl: "infra", Tags: []string{"infra"}, Failures: []core.Failure{{Case: line, Class: "harness-infra", What: err.Error()}}}
 		}
-		U := 40 * time.Millisecond
-		for attempt := 0; ; attempt++ {
-			impl, k, ok := p.runSched(line, K, steps, U)
-			p.stats.Lock()
-			p.stats.cases++
-			p.stats.Unlock()
-			if !ok {
-				return core.Outcome{Impl: "bad-op", Tags: []string{"bad-op-semantic", "trivial"}}
-			}
-			if k.late && attempt < 4 {
-				U *= 2
-				p.stats.Lock()
-				p.stats.retimed++
-				p.stats.Unlock()
-				continue
-			}
-			if k.infra != "" {
-				k.failures = append(k.failures, core.Failure{Case: line, Class: "harness-infra", What: k.infra})
-			}
-			tags := make([]string, 0, len(k.tags))
-			for t := range k.tags {
-				tags = append(tags, t)
-			}
-			if len(k.reqs) == 0 {
-				tags = append(tags, "trivial")
-			}
-			return core.Outcome{Impl: impl, Tags: tags, Failures: k.failures}
+		o, _ := p.execSched(K, &replaySource{steps: steps}, 0)
+		for i := range o.Failures {
+			o.Failures[i].Case = line
 		}
+		return o
 	case "stress":
 		return p.runStress(line, f)
 	case "static":
 		return p.runStatic(line, f)
 	}
 	return core.Outcome{Impl: "bad-op", Tags: []string{"bad-op", "trivial"}}
+}
+
+const baseTick = 40 * time.Millisecond
+
+// execSched runs a schedule, re-running it (as a replay of the steps already chosen) with a
+// longer tick when the machine was too slow for the discrete clock to be trustworthy.
+// It returns the outcome and the steps that were executed.
+func (p *prop) execSched(K int, src stepSource, minAttempt int) (core.Outcome, []step) {
+	U := baseTick << minAttempt
+	for attempt := minAttempt; ; attempt++ {
+		impl, k, ok := p.runSched(K, src, U)
+		p.stats.Lock()
+		p.stats.cases++
+		p.stats.Unlock()
+		if !ok {
+			return core.Outcome{Impl: "bad-op", Tags: []string{"bad-op-semantic", "trivial"}}, k.done
+		}
+		if k.late && attempt < 5 {
+			U *= 2
+			p.stats.Lock()
+			p.stats.retimed++
+			p.stats.Unlock()
+			src = &replaySource{steps: k.done}
+			continue
+		}
+		if k.infra != "" {
+			k.failures = append(k.failures, core.Failure{Class: "harness-infra", What: k.infra})
+		}
+		tags := make([]string, 0, len(k.tags))
+		for t := range k.tags {
+			tags = append(tags, t)
+		}
+		if len(k.reqs) == 0 {
+			tags = append(tags, "trivial")
+		}
+		return core.Outcome{Impl: impl, Tags: tags, Failures: k.failures}, k.done
+	}
+}
+
+func schedLine(K int, steps []step) string {
+	parts := make([]string, len(steps))
+	for i, st := range steps {
+		parts[i] = st.text
+	}
+	return fmt.Sprintf("sched %d %s", K, strings.Join(parts, ";"))
 }
 
 var _ = runtime.NumCPU
